@@ -599,6 +599,49 @@ func c09CapturedNode(c *Ctx, p *core.Prog) {
 		}
 	}
 	r.OK("captured-node", "scan", "-", sprintf("%d node-typed captures of escaping function literals and %d calls of capturing constructors examined", n, nc))
+	// captured-address: an escaping literal stores the *address* of one of its captured variables (or of a part of it)
+	// into a field of an AST node: every tree the literal is applied to then points at that one variable, so writing
+	// through one tree's field changes all the others (`sel.Limit = &n` with n the rule constructor's parameter).
+	r.Rule("captured-address", "an escaping function literal does not store the address of a captured variable into a field of an AST node: all trees it is applied to would share that one variable")
+	na := 0
+	for _, fn := range p.ModuleFuncs() {
+		if fn.Parent() == nil || !core.InPkgs(fn, "pkg/transform", "pkg/gosqlx", "pkg/sql/ast", "pkg/formatter", "pkg/linter", "pkg/sql/security") {
+			continue
+		}
+		seq := 0
+		for _, b := range fn.Blocks {
+			for _, in := range b.Instrs {
+				st, ok := in.(*ssa.Store)
+				if !ok {
+					continue
+				}
+				fa, ok := st.Addr.(*ssa.FieldAddr)
+				if !ok || !isNodeType(fa.X.Type()) {
+					continue
+				}
+				na++
+				v := st.Val
+				for i := 0; i < 4; i++ {
+					switch x := v.(type) {
+					case *ssa.FieldAddr:
+						v = x.X
+						continue
+					case *ssa.IndexAddr:
+						v = x.X
+						continue
+					}
+					break
+				}
+				fv, isFV := v.(*ssa.FreeVar)
+				if !isFV {
+					continue
+				}
+				seq++
+				r.Violate("captured-address", core.FnName(fn)+sprintf("|%s#%d", core.FieldName(fa.X.Type(), fa.Field), seq), p.Pos(st.Pos()), "the address of the captured variable `"+fv.Name()+"` is stored into "+core.FieldName(fa.X.Type(), fa.Field)+" of a node: every tree this function is applied to points at that one variable, so a write through one tree's field shows in all the others")
+			}
+		}
+	}
+	r.OK("captured-address", "scan", "-", sprintf("%d stores into node fields inside function literals examined", na))
 }
 
 // memoised-node: sync.OnceValue / OnceValues hand the same value to every caller. An AST node is mutable, is
